@@ -77,6 +77,60 @@ example : commonType (.compound .struct "P" [.native "Optional" [.unknown], .nat
       (.compound .struct "P" [.native "Optional" [.int], .native "Sequence" [.unknown]]) =
     some (.compound .struct "P" [.native "Optional" [.int], .native "Sequence" [.int]]) := rfl
 
+/-- **soundness with generics** (`bind_sound`): whenever `bind_in_assignment` succeeds on a written required type `r`
+and a fully known supplied type `s` (no XFunc, no generic parameter; `unknown` allowed), the supplied type is assignable
+to `r` instantiated with the binding found — whatever was bound, at every depth. `subst` substitutes everywhere. -/
+theorem bind_sound (ar : String → Nat) (r s : Ty) (b : Bnd) (hd : declarable r = true) (hr : wfTy ar r = true)
+    (hg : ground s = true) (hw : wfTy ar s = true) (h : bindIn r s = some b) : Sub s (subst b r) :=
+  (bindIn_sound ar r s b hd hr hg hw h).2
+
+/-- the same for a function name supplied where a function type is required (arity window, parameters, return type) -/
+theorem bind_sound_function_name (ar : String → Nat) (ps : List Ty) (r : Ty) (g : Option (List String))
+    (ps' : List Ty) (n' : Nat) (r' : Ty) (b : Bnd)
+    (hd : declarable (.callable ps r) = true) (hr : wfTy ar (.callable ps r) = true)
+    (hgp : groundList ps' = true) (hgr : ground r' = true) (hw : wfTy ar (.func g ps' n' r') = true)
+    (h : bindIn (.callable ps r) (.func g ps' n' r') = some b) :
+    Sub (.func g ps' n' r') (subst b (.callable ps r)) :=
+  bindIn_sound_func ar ps r g ps' n' r' b hd hr hgp hgr hw h
+
+/-- **generic parameters are bound consistently over all arguments**: when a call binds, *one* binding makes every
+argument assignable to its instantiated parameter -/
+theorem specBind_sound (ar : String → Nat) (f : FuncSpec) (args : List Ty) (b : Bnd)
+    (hd : declarableList f.ps = true) (hr : wfList ar f.ps = true)
+    (hg : groundList args = true) (hw : wfList ar args = true) (h : specBind f args = some b) :
+    SubList args (substList b (f.ps.take args.length)) :=
+  specBind_sound' ar f args b hd hr hg hw h
+
+/-- the same for struct construction: one binding of the struct's generic parameters fits every field -/
+theorem compoundBind_sound (ar : String → Nat) (fields args : List Ty) (b : Bnd)
+    (hd : declarableList fields = true) (hr : wfList ar fields = true)
+    (hg : groundList args = true) (hw : wfList ar args = true) (h : compoundBind fields args = some b) :
+    SubList args (substList b fields) :=
+  compoundBind_sound' ar fields args b hd hr hg hw h
+
+/-- **argument, field and variant-payload positions**: an accepted supplied type is assignable to the required type
+under some instantiation of the receiving declaration's generic parameters -/
+theorem accept_generic_sound (ar : String → Nat) (pos : Pos) (hp : pos.requiresEmpty = false) (r s : Ty)
+    (hd : declarable r = true) (hr : wfTy ar r = true) (hg : ground s = true) (hw : wfTy ar s = true)
+    (h : accepts pos r s = true) : ∃ b, Sub s (subst b r) := by
+  cases pos <;> simp [Pos.requiresEmpty] at hp <;> simp only [accepts, Option.isSome_iff_exists] at h <;>
+    obtain ⟨b, hb⟩ := h
+  · have := specBind_sound' ar { gens := none, ps := [r], nreq := 1, ret := .int } [s] b
+      (by simp [declarableList, hd]) (by simp [wfList, hr]) (by simp [groundList, hg]) (by simp [wfList, hw]) hb
+    simp only [List.length_cons, List.length_nil, List.take_succ_cons, List.take_zero, substList] at this
+    cases this with | cons h1 _ => exact ⟨b, h1⟩
+  · have := compoundBind_sound' ar [r] [s] b
+      (by simp [declarableList, hd]) (by simp [wfList, hr]) (by simp [groundList, hg]) (by simp [wfList, hw]) hb
+    simp only [substList] at this
+    cases this with | cons h1 _ => exact ⟨b, h1⟩
+  · exact ⟨b, (bindIn_sound ar r s b hd hr hg hw hb).2⟩
+
+/-- non-vacuity of `specBind_sound`: `fn f<T>(a: T, b: Optional<T>)` called with `(Sequence<unknown>, Optional<Sequence<int>>)`
+binds `T := Sequence<int>` -/
+example : specBind { gens := some ["T"], ps := [.generic "T", .native "Optional" [.generic "T"]], nreq := 2, ret := .int }
+      [.native "Sequence" [.unknown], .native "Optional" [.native "Sequence" [.int]]] =
+    some [("T", .native "Sequence" [.int])] := rfl
+
 /-- a call binds only when the number of arguments lies in the window [required, all parameters] -/
 theorem specBind_arity (f : FuncSpec) (args : List Ty) (b : Bnd) (h : specBind f args = some b) :
     f.nreq ≤ args.length ∧ args.length ≤ f.ps.length := by
